@@ -422,7 +422,7 @@ func checkC14(c c14Case, ctx *vCtx) *vFailure {
 	return nil
 }
 
-var c14Layouts = []string{"", "", "2006-01-02", "02.01.2006", "02/01/2006", "2 Jan 2006", "20060102", "2006-01-02 15:04", "2006-01-02 15:04 -0700"}
+var c14Layouts = []string{"", "", "2006-01-02", "02.01.2006", "02/01/2006", "2 Jan 2006", "20060102", "2006-01-02 15:04", "2006-01-02 15:04 -0700", "2006/1/2", "January 2, 2006", "Mon 2 Jan 2006"}
 
 func genC14(t *rapid.T) c14Case {
 	layout := c14Layouts[rapid.IntRange(0, len(c14Layouts)-1).Draw(t, "layout")]
@@ -460,7 +460,7 @@ func genC14(t *rapid.T) c14Case {
 			}
 		}
 	}
-	if !strings.HasPrefix(layout, "2006-01-02 15:04") && layout != "2 Jan 2006" && len(days) > 0 && rapid.IntRange(0, 11).Draw(t, "zeroday") == 0 {
+	if !strings.HasPrefix(layout, "2006-01-02 15:04") && layout != "2 Jan 2006" && layout != "Mon 2 Jan 2006" && len(days) > 0 && rapid.IntRange(0, 11).Draw(t, "zeroday") == 0 {
 		i := rapid.IntRange(0, len(days)-1).Draw(t, "zerodayat")
 		days[i] = vZeroDay
 		log.Recs[i].Head = vFmtDay(vZeroDay, layout)
@@ -473,7 +473,7 @@ func genC14(t *rapid.T) c14Case {
 			c.End = shift + rapid.IntRange(0, 7).Draw(t, "e")
 		}
 		c.GlobalB, c.GlobalE = rapid.Bool().Draw(t, "globalb"), rapid.Bool().Draw(t, "globale")
-		if layout != "2 Jan 2006" && rapid.IntRange(0, 7).Draw(t, "zerobound") == 0 {
+		if layout != "2 Jan 2006" && layout != "Mon 2 Jan 2006" && rapid.IntRange(0, 7).Draw(t, "zerobound") == 0 {
 			// a bound on the first day of the calendar
 			if rapid.Bool().Draw(t, "zeroboundend") {
 				c.End = vZeroDay
